@@ -19,11 +19,11 @@ package main
 
 import (
 	"fmt"
-	"sort"
-	"strings"
 	"go/constant"
 	"go/token"
 	"go/types"
+	"sort"
+	"strings"
 
 	"golang.org/x/tools/go/ssa"
 )
@@ -96,7 +96,9 @@ type cpMapEntry struct{ K, V cpVal }
 // cpRType is the model of a reflect.Type value: what the methods the library
 // calls on it answer. Identity is the pointer.
 type cpRType struct {
-	ID      string
+	ID string
+	// Go: the go/types type this models, when it was made from one (reflect.TypeOf of a statically typed value)
+	Go      types.Type
 	Kind    int64
 	Elem    *cpRType
 	Key     *cpRType
@@ -125,6 +127,9 @@ type cpCall struct {
 	Instr  ssa.CallInstruction
 	Result cpVal // what the fold used for the call's value
 	Fun    cpVal // the function value called, for a call that is neither static nor an interface method call
+	// Deref: for each pointer argument, what the cell it points to held when the call was made (the call is
+	// assumed to change it afterwards); nil for the other arguments
+	Deref []cpVal
 }
 
 // cpOutcome is one way the folded function can end.
@@ -725,7 +730,15 @@ func (e *cpEngine) record(fr *cpFrame, ci ssa.CallInstruction, kind string) []cp
 	} else if cc.IsInvoke() {
 		name = "invoke:" + cc.Method.Name()
 	}
-	cl := cpCall{Callee: name, Args: args, Instr: ci}
+	cl := cpCall{Callee: name, Args: args, Instr: ci, Deref: make([]cpVal, len(args))}
+	for i, a := range args {
+		if iv, ok := a.(cpIface); ok {
+			a = iv.V
+		}
+		if p, ok := a.(cpPtr); ok && p.C != nil {
+			cl.Deref[i] = cpValueCopy(p.C.V)
+		}
+	}
 	if cc.StaticCallee() == nil && !cc.IsInvoke() {
 		cl.Fun = e.get(fr, cc.Value)
 	}
@@ -1317,6 +1330,25 @@ func (e *cpEngine) binop(x *ssa.BinOp, a, b cpVal) cpVal {
 				return cpUnk{ID: fmt.Sprintf("cmp:%s%s%d", bu.ID, swapOp(x.Op), ak.V), Deps: deps}
 			}
 		}
+		// two unknowns compared for equality: the same unknown is equal to itself; two different ones keep a name
+		// (operands in a fixed order) so that the same comparison made twice is decided once, and the outcome says
+		// which two values were assumed equal
+		if au, isA := a.(cpUnk); isA && (x.Op == token.EQL || x.Op == token.NEQ) {
+			if bu, isB := b.(cpUnk); isB && deps == "" {
+				if au.ID == bu.ID {
+					return cpBool{x.Op == token.EQL}
+				}
+				lo, hi := au.ID, bu.ID
+				if hi < lo {
+					lo, hi = hi, lo
+				}
+				id := "cmp:" + lo + "==" + hi
+				if x.Op == token.NEQ {
+					id = "!" + id
+				}
+				return cpUnk{ID: id}
+			}
+		}
 		return e.freshDeps("cmp", deps)
 	}
 	return e.freshDeps("binop", deps)
@@ -1366,6 +1398,11 @@ func (e *cpEngine) evalCall(fr *cpFrame, x *ssa.Call, depth int) cpVal {
 		}
 	}
 	g := cc.StaticCallee()
+	if g != nil && g.Blocks == nil && g.Origin() != nil && g.Origin().Blocks != nil && e.P.isModuleFunc(g.Origin()) {
+		// an instance of a module generic whose type arguments are themselves type parameters has no body
+		// of its own: the generic body says what it does
+		g = g.Origin()
+	}
 	if g != nil && !e.P.isModuleFunc(g) {
 		args := make([]cpVal, len(cc.Args))
 		for i, a := range cc.Args {
@@ -1404,6 +1441,11 @@ func (e *cpEngine) evalCall(fr *cpFrame, x *ssa.Call, depth int) cpVal {
 					e.call(f.Fn, nil, depth+1)
 					return cpNil{}
 				}
+			}
+		}
+		if qualName(g) == "reflect.TypeFor" && len(g.TypeArgs()) == 1 {
+			if rt := cpRTypeFromGo(e.P, g.TypeArgs()[0], 0); rt != nil {
+				return rt
 			}
 		}
 		if r, ok := e.external(qualName(g), args, x.Type()); ok {
